@@ -41,15 +41,15 @@ func SubmitWithHelpers(
 		}
 		status := coreda.StatusError
 		switch {
-		case errors.Is(err, coreda.ErrTxTimedOut):
+		case isDAError(err, coreda.ErrTxTimedOut):
 			status = coreda.StatusNotIncludedInBlock
-		case errors.Is(err, coreda.ErrTxAlreadyInMempool):
+		case isDAError(err, coreda.ErrTxAlreadyInMempool):
 			status = coreda.StatusAlreadyInMempool
-		case errors.Is(err, coreda.ErrTxIncorrectAccountSequence):
+		case isDAError(err, coreda.ErrTxIncorrectAccountSequence):
 			status = coreda.StatusIncorrectAccountSequence
-		case errors.Is(err, coreda.ErrBlobSizeOverLimit):
+		case isDAError(err, coreda.ErrBlobSizeOverLimit):
 			status = coreda.StatusTooBig
-		case errors.Is(err, coreda.ErrContextDeadline):
+		case isDAError(err, coreda.ErrContextDeadline):
 			status = coreda.StatusContextDeadline
 		}
 		logger.Error("DA submission failed via helper", "error", err, "status", status)
@@ -93,6 +93,13 @@ func SubmitWithHelpers(
 			BlobSize:       0,
 		},
 	}
+}
+
+// isDAError reports whether err denotes the given DA error. Error identity does not
+// survive the JSON-RPC transport, only the message does, so the message is matched too
+// (RetrieveWithHelpers classifies by message for the same reason).
+func isDAError(err, target error) bool {
+	return errors.Is(err, target) || strings.Contains(err.Error(), target.Error())
 }
 
 // RetrieveWithHelpers performs blob retrieval using the underlying DA layer,
